@@ -474,7 +474,12 @@ PLAN = {
               dict(harness="c18.cancelrace", bound=2), dict(harness="c18.cancelrace.lines", bound=1),
               dict(harness="c18.pollrace", bound=1), dict(harness="c18.pollrace", bound=2, select=lambda p: p["kind"] == "raise_late_registration"),
               dict(harness="c18.blockcount", bound=1)],
+    # thorough (sized with tools/size_plan.py): the extra deviation of the cancel races is spent on the
+    # single-layer cells and (sync-op granularity) on cancels issued at the instant a retry becomes due (when = 1.0)
     "thorough": [dict(harness="c18.fault", bound=2), dict(harness="c18.fault.lines", bound=1),
-                 dict(harness="c18.cancelrace", bound=3), dict(harness="c18.cancelrace.lines", bound=2),
+                 dict(harness="c18.cancelrace", bound=2),
+                 dict(harness="c18.cancelrace", bound=3, select=lambda p: len(p["layers"]) == 1 or p["when"] == 1.0),
+                 dict(harness="c18.cancelrace.lines", bound=1),
+                 dict(harness="c18.cancelrace.lines", bound=2, select=lambda p: len(p["layers"]) == 1),
                  dict(harness="c18.pollrace", bound=2), dict(harness="c18.blockcount", bound=2)],
 }
